@@ -19,6 +19,8 @@ pub struct TxArgs {
     pub property: String,
     pub seed: u64,
     pub nkeys: u64,
+    /// model keys 1..=kssplit live in keyspace "a", the others in keyspace "b" under the SAME user keys
+    pub kssplit: u64,
     pub single_writer: bool,
     pub allowed_kf: Vec<String>,
 }
@@ -42,13 +44,14 @@ fn pairs_of(v: &Value) -> Vec<(u64, u64)> {
     out
 }
 
-fn collect(conc: &Concretizer, nkeys: u64, it: fjall::Iter) -> Result<Vec<(u64, u64)>, String> {
-    let keys: Vec<Vec<u8>> = (1..=nkeys).map(|i| conc.key(i)).collect();
+/// `cell`: (number of user keys of the keyspace, offset of its model keys)
+fn collect(conc: &Concretizer, cell: (u64, u64), it: fjall::Iter) -> Result<Vec<(u64, u64)>, String> {
+    let keys: Vec<Vec<u8>> = (1..=cell.0).map(|i| conc.key(i)).collect();
     let mut out = vec![];
     for g in it {
         let (kb, v) = g.into_inner().map_err(|e| format!("{e:?}"))?;
         match keys.iter().position(|x| x[..] == kb[..]) {
-            Some(i) => out.push((i as u64 + 1, conc.unval(&v))),
+            Some(i) => out.push((i as u64 + 1 + cell.1, conc.unval(&v))),
             None => return Err("scan yields a key never written".into()),
         }
     }
@@ -57,9 +60,10 @@ fn collect(conc: &Concretizer, nkeys: u64, it: fjall::Iter) -> Result<Vec<(u64, 
 
 /// Executes one read method on a transaction through every API path that has the same
 /// documented meaning and footprint class; returns the model-level result.
-fn do_read<T: Readable>(tx: &T, ks: &Keyspace, conc: &Concretizer, nkeys: u64, m: &str, arg: u64, variant: u64)
+fn do_read<T: Readable>(tx: &T, ks: &Keyspace, conc: &Concretizer, cell: (u64, u64), m: &str, arg: u64, variant: u64)
     -> Result<Value, String> {
     let e = |x: fjall::Error| format!("{x:?}");
+    let arg = arg - cell.1; // user key of the model key
     match m {
         "get" => {
             if variant % 2 == 0 {
@@ -82,9 +86,9 @@ fn do_read<T: Readable>(tx: &T, ks: &Keyspace, conc: &Concretizer, nkeys: u64, m
         }
         "scan" => {
             let pairs = match variant % 4 {
-                0 => collect(conc, nkeys, tx.iter(ks))?,
+                0 => collect(conc, cell, tx.iter(ks))?,
                 1 => {
-                    let mut p = collect(conc, nkeys, tx.iter(ks))?;
+                    let mut p = collect(conc, cell, tx.iter(ks))?;
                     let n = tx.len(ks).map_err(e)?;
                     if n != p.len() {
                         return Err(format!("len() = {n}, iter has {}", p.len()));
@@ -97,9 +101,9 @@ fn do_read<T: Readable>(tx: &T, ks: &Keyspace, conc: &Concretizer, nkeys: u64, m
                     p
                 }
                 2 => {
-                    let p = collect(conc, nkeys, tx.range::<Vec<u8>, _>(ks, ..))?;
+                    let p = collect(conc, cell, tx.range::<Vec<u8>, _>(ks, ..))?;
                     let f = tx.first_key_value(ks).and_then(|g| g.key().ok()).map(|k| k.to_vec());
-                    let exp_first = p.first().map(|(k, _)| conc.key(*k));
+                    let exp_first = p.first().map(|(k, _)| conc.key(*k - cell.1));
                     if f != exp_first {
                         return Err("first_key_value disagrees with range(..)".into());
                     }
@@ -109,16 +113,16 @@ fn do_read<T: Readable>(tx: &T, ks: &Keyspace, conc: &Concretizer, nkeys: u64, m
                     let mut p: Vec<(u64, u64)> = vec![];
                     let mut it = tx.iter(ks);
                     // consumed from the back
-                    let keys: Vec<Vec<u8>> = (1..=nkeys).map(|i| conc.key(i)).collect();
+                    let keys: Vec<Vec<u8>> = (1..=cell.0).map(|i| conc.key(i)).collect();
                     while let Some(g) = it.next_back() {
                         let (kb, v) = g.into_inner().map_err(e)?;
                         if let Some(i) = keys.iter().position(|x| x[..] == kb[..]) {
-                            p.push((i as u64 + 1, conc.unval(&v)));
+                            p.push((i as u64 + 1 + cell.1, conc.unval(&v)));
                         }
                     }
                     p.reverse();
                     let l = tx.last_key_value(ks).and_then(|g| g.key().ok()).map(|k| k.to_vec());
-                    if l != p.last().map(|(k, _)| conc.key(*k)) {
+                    if l != p.last().map(|(k, _)| conc.key(*k - cell.1)) {
                         return Err("last_key_value disagrees with reverse iter".into());
                     }
                     p
@@ -129,7 +133,7 @@ fn do_read<T: Readable>(tx: &T, ks: &Keyspace, conc: &Concretizer, nkeys: u64, m
         "range_lo" => {
             // keys <= arg
             let hi = conc.key(arg);
-            let p = collect(conc, nkeys, tx.range::<Vec<u8>, _>(ks, ..=hi))?;
+            let p = collect(conc, cell, tx.range::<Vec<u8>, _>(ks, ..=hi))?;
             Ok(json!(p.iter().map(|(k, v)| json!([k, v])).collect::<Vec<_>>()))
         }
         _ => Err(format!("unknown read method {m}")),
@@ -203,12 +207,28 @@ pub fn run_tx_replay(args: &TxArgs) -> Outcome {
                 Some(d) => Some(d.keyspace("a", || ks_options(&variant)).map_err(e)?),
                 None => None,
             };
+            // second keyspace: the same user keys again (model keys above kssplit)
+            let oks2: Option<OptimisticTxKeyspace> = match &odb {
+                Some(d) => Some(d.keyspace("b", || ks_options(&variant)).map_err(e)?),
+                None => None,
+            };
+            let sks2: Option<SingleWriterTxKeyspace> = match &sdb {
+                Some(d) => Some(d.keyspace("b", || ks_options(&variant)).map_err(e)?),
+                None => None,
+            };
+            let split = if args.kssplit == 0 || args.kssplit >= args.nkeys { args.nkeys } else { args.kssplit };
+            let cell_of = |k: u64| -> (u64, u64) { if k <= split { (split, 0) } else { (args.nkeys - split, split) } };
             let inner_db: Database = match (&odb, &sdb) {
                 (Some(d), _) => d.inner().clone(),
                 (_, Some(d)) => d.inner().clone(),
                 _ => unreachable!(),
             };
-            let ks: Keyspace = match (&oks, &sks) {
+            let ks1: Keyspace = match (&oks, &sks) {
+                (Some(k), _) => k.inner().clone(),
+                (_, Some(k)) => k.inner().clone(),
+                _ => unreachable!(),
+            };
+            let ks2: Keyspace = match (&oks2, &sks2) {
                 (Some(k), _) => k.inner().clone(),
                 (_, Some(k)) => k.inner().clone(),
                 _ => unreachable!(),
@@ -231,30 +251,38 @@ pub fn run_tx_replay(args: &TxArgs) -> Outcome {
                         let m = step["m"].as_str().unwrap();
                         let arg = step["arg"].as_u64().unwrap_or(1);
                         let var = (args.seed + bi as u64 + si as u64) % 4;
+                        let cell = cell_of(arg);
+                        let ks = if cell.1 == 0 { &ks1 } else { &ks2 };
                         let got = match txs.get(&t).ok_or("no tx")? {
-                            Tx::Opt(x) => do_read(x, &ks, &conc, args.nkeys, m, arg, var)?,
-                            Tx::Single(x) => do_read(x, &ks, &conc, args.nkeys, m, arg, var)?,
+                            Tx::Opt(x) => do_read(x, ks, &conc, cell, m, arg, var)?,
+                            Tx::Single(x) => do_read(x, ks, &conc, cell, m, arg, var)?,
                         };
                         if let Some(p) = check_read(&conc, m, &got, &step["res"]) {
                             return Ok(Some((si, format!("tx {t}: {p}"))));
                         }
                     }
                     "Write" => {
-                        let k = conc.key(step["k"].as_u64().unwrap());
+                        let mk = step["k"].as_u64().unwrap();
+                        let cell = cell_of(mk);
+                        let k = conc.key(mk - cell.1);
                         let del = step["del"].as_bool().unwrap_or(false);
                         let v = step["v"].as_u64().unwrap_or(0);
                         match txs.get_mut(&t).ok_or("no tx")? {
                             Tx::Opt(x) => {
-                                if del { x.remove(&ks, k) } else { x.insert(&ks, k, conc.val(v)) }
+                                let ks = if cell.1 == 0 { &ks1 } else { &ks2 };
+                                if del { x.remove(ks, k) } else { x.insert(ks, k, conc.val(v)) }
                             }
                             Tx::Single(x) => {
-                                let sk = sks.as_ref().unwrap();
+                                let sk = if cell.1 == 0 { sks.as_ref().unwrap() } else { sks2.as_ref().unwrap() };
                                 if del { x.remove(sk, k) } else { x.insert(sk, k, conc.val(v)) }
                             }
                         }
                     }
                     "Rmw" => {
-                        let k = conc.key(step["k"].as_u64().unwrap());
+                        let mk = step["k"].as_u64().unwrap();
+                        let cell = cell_of(mk);
+                        let ks = if cell.1 == 0 { &ks1 } else { &ks2 };
+                        let k = conc.key(mk - cell.1);
                         let v = step["v"].as_u64().unwrap_or(0);
                         let newv = conc.val(v);
                         let which = (args.seed + si as u64) % 2;
@@ -262,15 +290,15 @@ pub fn run_tx_replay(args: &TxArgs) -> Outcome {
                         let (prev, ret_new): (Option<fjall::UserValue>, Option<fjall::UserValue>) = match txs.get_mut(&t).ok_or("no tx")? {
                             Tx::Opt(x) => {
                                 if which == 0 {
-                                    (x.fetch_update(&ks, k, |_| Some(newv.clone().into())).map_err(e)?, None)
+                                    (x.fetch_update(ks, k, |_| Some(newv.clone().into())).map_err(e)?, None)
                                 } else {
                                     let mut seen = None;
-                                    let r = x.update_fetch(&ks, k, |p| { seen = p.cloned(); Some(newv.clone().into()) }).map_err(e)?;
+                                    let r = x.update_fetch(ks, k, |p| { seen = p.cloned(); Some(newv.clone().into()) }).map_err(e)?;
                                     (seen, r)
                                 }
                             }
                             Tx::Single(x) => {
-                                let sk = sks.as_ref().unwrap();
+                                let sk = if cell.1 == 0 { sks.as_ref().unwrap() } else { sks2.as_ref().unwrap() };
                                 if which == 0 {
                                     (x.fetch_update(sk, k, |_| Some(newv.clone().into())).map_err(e)?, None)
                                 } else {
@@ -307,9 +335,11 @@ pub fn run_tx_replay(args: &TxArgs) -> Outcome {
                         let store: Vec<u64> = step["store"].as_array().map(|a| a.iter().map(|x| x.as_u64().unwrap_or(0)).collect()).unwrap_or_default();
                         let snap = inner_db.snapshot();
                         for (i, exp) in store.iter().enumerate() {
-                            let key = conc.key(i as u64 + 1);
+                            let cell = cell_of(i as u64 + 1);
+                            let ks = if cell.1 == 0 { &ks1 } else { &ks2 };
+                            let key = conc.key(i as u64 + 1 - cell.1);
                             let g = ks.get(&key).map_err(e)?.map_or(0, |b| conc.unval(&b));
-                            let s = snap.get(&ks, &key).map_err(e)?.map_or(0, |b| conc.unval(&b));
+                            let s = snap.get(ks, &key).map_err(e)?.map_or(0, |b| conc.unval(&b));
                             if g != *exp || s != *exp {
                                 return Ok(Some((si, format!("after commit of tx {t}: key {} reads {g} (snapshot {s}), specification {exp}", i + 1))));
                             }
